@@ -133,6 +133,9 @@ template <class Dom> int drive(const char *name, unsigned long long first, int c
 }
 int main(int argc, char **argv) {
   crab::CrabEnableWarningMsg(false);
+  // domain parameters: PARAMS="array_adaptive.is_smashable=false,region.tag_analysis=false,..."
+  if (const char *ps = getenv("PARAMS")) { std::string p(ps); size_t i = 0; while (i < p.size()) { size_t j = p.find(',', i); if (j == std::string::npos) j = p.size(); std::string kv = p.substr(i, j - i); size_t e = kv.find('=');
+      if (e != std::string::npos) crab::domains::crab_domain_params_man::get().set_param(kv.substr(0, e), kv.substr(e + 1)); i = j + 1; } }
   std::string dn = argc > 1 ? argv[1] : "aaint";
   unsigned long long first = argc > 2 ? strtoull(argv[2], 0, 10) : 1; int count = argc > 3 ? atoi(argv[3]) : 100, steps = argc > 4 ? atoi(argv[4]) : 10;
 #define D(n, T) if (dn == n) return drive<T>(n, first, count, steps) ? 1 : 0;
